@@ -1051,7 +1051,12 @@ Statement: MatchedStatement /* "standard" way of solving if-then-else shift-redu
         ;
 
 IfCondition: T_IF '(' { CALL(@1, @2, if_begin()); } ExprList ')' { CALL(@3, @3, if_condition()); }
-        | T_IF '(' error ')'
+        | T_IF '(' error ')' {
+            /* keep the builders balanced: the enclosing rule ends with if_then()/if_end(), which take a condition */
+            CALL(@1, @2, if_begin());
+            CALL(@3, @3, expr_true());
+            CALL(@3, @3, if_condition());
+        }
         ;
 
 IfConditionThenMatched: IfCondition MatchedStatement T_ELSE { CALL(@1, @3, if_then()); };
